@@ -185,4 +185,123 @@ theorem analyze_exact_nt [DecidableEq M] {g : Game P M} (hg : GameOK g) (hb : Ev
     refine Sat.ok ⟨h1, h2, h4, h5, hv, m, rest, c, ?_, hap, hval⟩
     simpa using hms
 
+
+/-! ### AnalyzeAll -/
+
+/-- every listed line starts with a legal move whose child attains `v`; the PV itself is listed -/
+def AAInv (g : Game P M) (p : P) (dn : Nat) (v : Int) (pv : List M) (K : Int × Bool) (out : List (List M)) (s : Eng M) :
+    Prop :=
+  NT K s ∧ pv ∈ out ∧
+  ∀ line ∈ out, ∃ m rest c, line = m :: rest ∧ g.apply p m = .ok c ∧ v = -(negamax g dn c)
+
+/-- a child that attains `v` is the child of the first move of some listed line -/
+def AACov (g : Game P M) (p : P) (dn : Nat) (v : Int) (out : List (List M)) (c : P) : Prop :=
+  v = -(negamax g dn c) → ∃ line ∈ out, ∃ m rest, line = m :: rest ∧ g.apply p m = .ok c
+
+theorem aaBody_ok [DecidableEq M] {g : Game P M} (hg : GameOK g) {cfg : SOpts} (hpr : Precise cfg)
+    {o : Oracle M} (hnc : NoCancel o) (hord : OrderOK o)
+    (p : P) (depth : Int) (pv0 : M) (rest : List M) (v : Int) (K : Int × Bool)
+    (hl : ∀ m c, g.apply p m = .ok c → Live g (depth - 1).toNat c) :
+    BodyOK g p (aaBody g cfg o depth pv0 rest v) (AAInv g p (depth - 1).toNat v (pv0 :: rest) K)
+      (AACov g p (depth - 1).toNat v) (fun _ _ => False) (fun _ _ => False) := by
+  intro m c out s hap hinv
+  obtain ⟨hnt, hpv, hlines⟩ := hinv
+  unfold aaBody
+  apply Sat.bind
+  intro sm _
+  apply Sat.bind
+  unfold pvSearch
+  refine Sat.mono ((search_ok hg hpr hnc hord _).1 K c 1 (depth - 1) rest (-v - 1) (-v + 1)
+    { s with stackM := sm } hnt (by omega) (hl m c hap)) ?_
+  rintro ⟨⟨ms, r⟩, s'⟩ ⟨hnt', hpc, _⟩
+  dsimp only at hnt' hpc ⊢
+  unfold PC at hpc
+  by_cases hne : (-r != v) = true
+  · rw [if_pos hne]
+    apply Sat.pure
+    have hne' : -r ≠ v := by simpa using hne
+    refine ⟨⟨hnt', hpv, hlines⟩, fun _ h => h, ?_⟩
+    intro c' hc'; subst hc'
+    intro hv; exfalso; omega
+  · rw [if_neg hne]
+    have heq : -r = v := by simpa using hne
+    have hval : v = -(negamax g (depth - 1).toNat c) := by omega
+    by_cases hm : g.moveEq m pv0 = true
+    · rw [if_pos hm]
+      apply Sat.pure
+      refine ⟨⟨hnt', hpv, hlines⟩, fun _ h => h, ?_⟩
+      intro c' hc'; subst hc'
+      intro _
+      exact ⟨pv0 :: rest, hpv, pv0, rest, rfl, by rw [← hg.eqSound p m pv0 hm]; exact hap⟩
+    · rw [if_neg hm]
+      apply Sat.pure
+      refine ⟨⟨hnt', List.mem_append_left _ hpv, ?_⟩, ?_, ?_⟩
+      · intro line hline
+        rcases List.mem_append.mp hline with h | h
+        · exact hlines line h
+        · simp only [List.mem_cons, List.not_mem_nil, or_false] at h
+          exact ⟨m, ms.getD [], c, h, hap, hval⟩
+      · intro c' hc' hv
+        obtain ⟨line, hl1, hl2⟩ := hc' hv
+        exact ⟨line, List.mem_append_left _ hl1, hl2⟩
+      · intro c' hc'; subst hc'
+        intro _
+        exact ⟨m :: ms.getD [], List.mem_append_right _ (by simp), m, ms.getD [], rfl, hap⟩
+
+/-- **`AnalyzeAll` lists exactly the first moves that attain the value** (no table, precise options, any move
+order): the value is the negamax value at the reported depth; every listed line starts with a legal move whose
+child has value `-v` one level down; and every legal move whose child has that value leads to the same position
+as the first move of some listed line. -/
+theorem analyzeAll_exact_nt [DecidableEq M] {g : Game P M} (hg : GameOK g) (hb : EvalBounded g) {cfg : Cfg}
+    (hpr : Precise cfg.opts) {o : Oracle M} (hnc : NoCancel o) (hord : OrderOK o)
+    (p : P) (hov : g.over p = false) (hdepth : 1 ≤ cfg.depth)
+    (hlive : ∀ d : Nat, 1 ≤ d → (d : Int) ≤ cfg.depth → Live g d p)
+    (s : Eng M) (hs : s.hasTable = false) :
+    Sat (analyzeAll g cfg o p s) (fun x =>
+      let lines := x.1.1; let v := x.1.2.1; let st := x.1.2.2
+      v = negamax g st.depth.toNat p ∧
+      (∀ line ∈ lines, ∃ m rest c, line = m :: rest ∧ g.apply p m = .ok c ∧
+        v = -(negamax g (st.depth.toNat - 1) c)) ∧
+      (∀ m ∈ g.allMoves p, ∀ c, g.apply p m = .ok c → v = -(negamax g (st.depth.toNat - 1) c) →
+        ∃ line ∈ lines, ∃ m' rest, line = m' :: rest ∧ g.apply p m' = .ok c)) := by
+  unfold analyzeAll
+  have ha := analyze_exact_nt hg hb hpr hnc hord p hov hdepth hlive s hs
+  cases hr : analyze g cfg o p s with
+  | error e => exact Sat.error
+  | ok x =>
+    obtain ⟨⟨pv, v, st⟩, s1⟩ := x
+    obtain ⟨hs1, hcan, hd1, hd2, hv, m0, rest0, c0, hpv, hap0, hval0⟩ := ha _ hr
+    dsimp only at hs1 hcan hd1 hd2 hv hpv hval0 ⊢
+    subst hpv
+    unfold analyzeAllFrom
+    dsimp only
+    have hdn : (st.depth - 1).toNat = st.depth.toNat - 1 := by omega
+    have hlp : Live g st.depth.toNat p := hlive st.depth.toNat (by omega) (by omega)
+    have hlc := (Live.child hg hlp (by omega) hov).2
+    have hb' := aaBody_ok hg hpr hnc hord p st.depth m0 rest0 v (s1.st.depth, s1.st.canceled) hlc
+    have hinv0 : AAInv g p (st.depth - 1).toNat v (m0 :: rest0) (s1.st.depth, s1.st.canceled)
+        [m0 :: rest0] s1 :=
+      ⟨⟨hs1, rfl⟩, by simp, fun line hline => by
+        simp only [List.mem_cons, List.not_mem_nil, or_false] at hline
+        exact ⟨m0, rest0, c0, hline, hap0, by rw [hdn]; exact hval0⟩⟩
+    have hit := iterate_rule hb' cfg.opts o (rootMG st.depth (m0 :: rest0)) (hg.gen p) hord
+      (fun a s k hi => ⟨hi.1, hi.2.1, hi.2.2⟩) [m0 :: rest0] s1 hinv0
+    cases hi : iterate g cfg.opts o p (rootMG st.depth (m0 :: rest0))
+        (aaBody g cfg.opts o st.depth m0 rest0 v) [m0 :: rest0] s1 with
+    | error e => exact Sat.error
+    | ok y =>
+      obtain ⟨c, s2⟩ := y
+      have hpost := hit _ hi
+      cases c with
+      | ret r => exact absurd hpost id
+      | brk out => exact absurd hpost id
+      | next out =>
+        obtain ⟨⟨_, _, hlines⟩, _, hcov⟩ := hpost
+        refine Sat.ok ⟨hv, ?_, ?_⟩
+        · intro line hline
+          obtain ⟨m, rest, c, h1, h2, h3⟩ := hlines line hline
+          exact ⟨m, rest, c, h1, h2, by rw [← hdn]; exact h3⟩
+        · intro m hm c hap hvc
+          exact hcov c ⟨m, hm, hap⟩ (by rw [hdn]; exact hvc)
+
 end Search
